@@ -4,6 +4,12 @@ package plan
 // the budget the caller enforces inside fails) subset of 0..n-1 for which
 // fails still holds. fails(all) is assumed to hold.
 func DDMinIdx(n int, fails func(keep []int) bool) []int {
+	return DDMinIdxStop(n, fails, nil)
+}
+
+// DDMinIdxStop is DDMinIdx with an abort condition: once stop() is true the
+// current (still failing) subset is returned at once.
+func DDMinIdxStop(n int, fails func(keep []int) bool, stop func() bool) []int {
 	cur := make([]int, n)
 	for i := range cur {
 		cur[i] = i
@@ -14,6 +20,9 @@ func DDMinIdx(n int, fails func(keep []int) bool) []int {
 		reduced := false
 		// try complements (remove one chunk)
 		for start := 0; start < len(cur); start += chunk {
+			if stop != nil && stop() {
+				return cur
+			}
 			end := start + chunk
 			if end > len(cur) {
 				end = len(cur)
@@ -48,13 +57,18 @@ func DDMinIdx(n int, fails func(keep []int) bool) []int {
 
 // DDMinBytes shrinks a byte string while fails holds.
 func DDMinBytes(in []byte, fails func([]byte) bool) []byte {
-	keep := DDMinIdx(len(in), func(k []int) bool {
+	return DDMinBytesStop(in, fails, nil)
+}
+
+// DDMinBytesStop is DDMinBytes with an abort condition.
+func DDMinBytesStop(in []byte, fails func([]byte) bool, stop func() bool) []byte {
+	keep := DDMinIdxStop(len(in), func(k []int) bool {
 		b := make([]byte, len(k))
 		for i, j := range k {
 			b[i] = in[j]
 		}
 		return fails(b)
-	})
+	}, stop)
 	out := make([]byte, len(keep))
 	for i, j := range keep {
 		out[i] = in[j]
